@@ -1,1 +1,724 @@
-fn main(){}
+//! coll-mc: exhaustive bounded differential exploration of bump-scope's vector-like collections against std models
+//! (C08), with a panic injected at every user-callback invocation (C06), split/merge partition checks (C16) and
+//! allocation-failure injection into collection growth (C07, collection part).
+//!
+//! usage: coll-mc check --prop C06|C08|C16|C07 --tier quick|thorough
+//!        coll-mc replay --prop <id> --case "<text>"
+
+mod elem;
+mod split;
+mod vecs;
+
+use bump_scope::settings::BumpSettings;
+use bump_scope::{Bump, BumpVec, FixedBumpVec, MutBumpVec, MutBumpVecRev};
+use elem::{El, ElemT, InjectedPanic, Z};
+use std::panic::{AssertUnwindSafe, catch_unwind};
+use std::sync::Mutex;
+use std::sync::atomic::{AtomicBool, AtomicU64, AtomicUsize, Ordering};
+use std::time::{Duration, Instant};
+use vcore::json::J;
+use vcore::slab::{self, SlabCfg, SlabZ};
+use vecs::*;
+
+pub fn arg(args: &[String], name: &str) -> Option<String> {
+    args.iter().position(|a| a == name).and_then(|i| args.get(i + 1).cloned())
+}
+
+pub const FIXED_EXTRA: usize = 3;
+
+pub const CFGS: [(&str, bool, usize); 4] = [("up-ma1", true, 1), ("down-ma1", false, 1), ("up-ma8", true, 8), ("down-ma16", false, 16)];
+
+#[macro_export]
+macro_rules! with_cfg {
+    ($ci:expr, |$S:ident| $body:expr) => {
+        match $ci {
+            0 => {
+                type $S = BumpSettings<1, true, true, true, true, true, 0>;
+                $body
+            }
+            1 => {
+                type $S = BumpSettings<1, false, true, true, true, true, 0>;
+                $body
+            }
+            2 => {
+                type $S = BumpSettings<8, true, true, true, true, true, 0>;
+                $body
+            }
+            3 => {
+                type $S = BumpSettings<16, false, true, true, true, true, 0>;
+                $body
+            }
+            _ => unreachable!(),
+        }
+    };
+}
+
+#[derive(Clone, Copy, Debug, PartialEq, Eq)]
+pub enum Mode {
+    /// C08: compare with the model after every operation
+    Diff,
+    /// C06: arm the k-th callback to panic (None = fault-free reference run); `drops`: Drop::drop counts as a callback
+    Inject { k: Option<u64>, drops: bool },
+}
+
+#[derive(Debug, Clone)]
+pub enum Verdict {
+    Ok,
+    /// the op at this index is not available for the kind / was pruned (both panicked)
+    Stop(usize),
+    Violation(usize, String),
+}
+
+pub struct CaseResult {
+    pub verdict: Verdict,
+    pub callbacks: u64,
+    pub changed: bool,
+    pub fired: bool,
+    pub final_vals: Vec<u32>,
+}
+
+fn payload_kind(p: &Box<dyn std::any::Any + Send>) -> (bool, Option<String>) {
+    if p.is::<InjectedPanic>() {
+        (true, None)
+    } else if let Some(o) = p.downcast_ref::<OracleFail>() {
+        (false, Some(o.0.clone()))
+    } else {
+        (false, None)
+    }
+}
+
+fn drive<T: ElemT + Clone + PartialEq, Sub: Subject<T>>(mut sub: Sub, mut model: Vec<u32>, ops: &[VOp], mode: Mode, fixed_cap0: usize, promised0: usize) -> (Verdict, bool) {
+    let kind = Sub::KIND;
+    let mut fixed_cap = fixed_cap0;
+    let inject = matches!(mode, Mode::Inject { .. });
+    let mut promised = promised0;
+    let mut changed = false;
+    let aux = Aux(std::marker::PhantomData);
+    for (i, op) in ops.iter().enumerate() {
+        if !inject && matches!(op, VOp::Drain(_, _, Take::Forget) | VOp::Splice(_, _, _, Take::Forget) | VOp::ExtractIf(_, Take::Forget)) {
+            return (Verdict::Stop(i), changed);
+        }
+        let cap_before = sub.capacity();
+        let anchor_before = sub.anchor();
+        let model_before = model.clone();
+        let mut m = catch_unwind(AssertUnwindSafe(|| model_apply(&mut model, kind, op, fixed_cap)));
+        let model_panic = if m.is_err() { vcore::crash::take_last_panic().unwrap_or_default() } else { String::new() };
+        if T::IS_ZST {
+            // all zero-sized values are equal: the model holds zeros
+            for v in model.iter_mut() {
+                *v = 0;
+            }
+            if let Ok(Some(r)) = &mut m {
+                // (`map` turns the zero-sized values into numbers: 0 + 2000)
+                let z = if matches!(op, VOp::Map) { 2000 } else { 0 };
+                for v in r.vals.iter_mut() {
+                    *v = z;
+                }
+            }
+        }
+        if let Ok(None) = m {
+            return (Verdict::Stop(i), changed);
+        }
+        if op.is_finisher() {
+            let s = catch_unwind(AssertUnwindSafe(|| sub.finish(op)));
+            return match (m, s) {
+                (_, Ok(None)) => (Verdict::Stop(i), changed),
+                (Ok(Some(mr)), Ok(Some(sr))) => {
+                    if mr != sr {
+                        (Verdict::Violation(i, format!("{op}: returned {:?}, model {:?}", sr.vals, mr.vals)), changed)
+                    } else {
+                        (Verdict::Ok, true)
+                    }
+                }
+                (Err(_), Err(_)) => (Verdict::Stop(i), changed),
+                (Ok(_), Err(p)) => {
+                    let (inj, orc) = payload_kind(&p);
+                    if inj {
+                        (Verdict::Ok, true)
+                    } else {
+                        (Verdict::Violation(i, format!("{op}: panicked ({}) but the model did not", orc.unwrap_or_else(|| vcore::crash::take_last_panic().unwrap_or_default()))), changed)
+                    }
+                }
+                (Err(_), Ok(_)) => (Verdict::Violation(i, format!("{op}: the model panics but the subject returned normally")), changed),
+                (Ok(None), _) => unreachable!(),
+            };
+        }
+        let s = catch_unwind(AssertUnwindSafe(|| sub.apply(op, &aux)));
+        match (m, s) {
+            (_, Ok(None)) => return (Verdict::Stop(i), changed),
+            (Ok(Some(mr)), Ok(Some(sr))) => {
+                let leak_route = sr.flag == Some(true) || matches!(op, VOp::Drain(_, _, Take::Forget) | VOp::ExtractIf(_, Take::Forget));
+                if leak_route {
+                    // explicit leak: contents unspecified from here on; drop counts are still judged by the caller
+                    return (Verdict::Ok, true);
+                }
+                if mr.vals != sr.vals {
+                    return (Verdict::Violation(i, format!("{op}: returned {:?}, model {:?}", sr.vals, mr.vals)), changed);
+                }
+                let sv = sub.vals();
+                if sv != model {
+                    return (Verdict::Violation(i, format!("{op}: contents {:?}, model {:?}", sv, model)), changed);
+                }
+                if sub.len() != model.len() {
+                    return (Verdict::Violation(i, format!("{op}: len {} but {} elements", sub.len(), model.len())), changed);
+                }
+                if model != model_before {
+                    changed = true;
+                }
+                // ---- capacity promises
+                let cap = sub.capacity();
+                if T::IS_ZST {
+                    if cap != usize::MAX && kind != Kind::Boxed {
+                        return (Verdict::Violation(i, format!("{op}: capacity of a zero-sized element vector is {cap}")), changed);
+                    }
+                } else {
+                    if cap < sub.len() {
+                        return (Verdict::Violation(i, format!("{op}: capacity {cap} < len {}", sub.len())), changed);
+                    }
+                    if kind == Kind::Fixed && matches!(op, VOp::SplitOff(..)) {
+                        // the capacity is divided between the two parts (their sum is judged by C16)
+                        if cap > cap_before {
+                            return (Verdict::Violation(i, format!("{op}: split_off increased the capacity {cap_before} → {cap}")), changed);
+                        }
+                        fixed_cap = cap;
+                        promised = cap;
+                    }
+                    match *op {
+                        VOp::Reserve(k) | VOp::ReserveExact(k) => promised = promised.max(model.len() + k),
+                        VOp::ShrinkToFit | VOp::RoundTrip => promised = 0,
+                        VOp::SplitOff(..) if kind != Kind::Fixed => promised = 0,
+                        VOp::ShrinkTo(k) => promised = promised.min(k.max(model.len())),
+                        _ => {}
+                    }
+                    if kind != Kind::Boxed && cap < promised {
+                        return (Verdict::Violation(i, format!("{op}: capacity {cap} is below the promised {promised}")), changed);
+                    }
+                    let may_move = matches!(op, VOp::ShrinkToFit | VOp::ShrinkTo(_) | VOp::SplitOff(..) | VOp::RoundTrip | VOp::ExtendIter(_, true) | VOp::Reserve(_) | VOp::ReserveExact(_));
+                    if !may_move && kind != Kind::Boxed && model.len() <= cap_before && sub.anchor() != anchor_before {
+                        return (Verdict::Violation(i, format!("{op}: the buffer moved although the capacity {cap_before} sufficed for {} elements", model.len())), changed);
+                    }
+                    if matches!(op, VOp::Reserve(k) | VOp::ReserveExact(k) if model.len() + k <= cap_before) && sub.anchor() != anchor_before {
+                        return (Verdict::Violation(i, format!("{op}: the buffer moved although the capacity {cap_before} already sufficed")), changed);
+                    }
+                    if kind == Kind::Fixed && !matches!(op, VOp::SplitOff(..)) && (sub.anchor() != anchor_before || cap != cap_before) {
+                        return (Verdict::Violation(i, format!("{op}: a fixed vector changed its buffer or capacity ({cap_before} → {cap})")), changed);
+                    }
+                }
+            }
+            (Err(_), Err(p)) => {
+                let (inj, orc) = payload_kind(&p);
+                if let Some(o) = orc {
+                    return (Verdict::Violation(i, format!("{op}: {o}")), changed);
+                }
+                if inj {
+                    return (Verdict::Ok, true);
+                }
+                // both reject the arguments: the subject must be unchanged; the history is not extended through it
+                let sv = sub.vals();
+                if model_panic.starts_with("model: fixed vector") {
+                    // a fixed vector that runs full in the middle of a multi-element operation keeps what fitted
+                    if !sv.starts_with(&model_before) || sv.len() > fixed_cap {
+                        return (Verdict::Violation(i, format!("{op}: a full fixed vector lost or corrupted contents: {:?} (before {:?})", sv, model_before)), changed);
+                    }
+                } else if sv != model_before {
+                    return (Verdict::Violation(i, format!("{op}: panicked like the model but changed the contents to {:?} (before {:?})", sv, model_before)), changed);
+                }
+                return (Verdict::Stop(i), changed);
+            }
+            (Ok(_), Err(p)) => {
+                let (inj, orc) = payload_kind(&p);
+                if inj {
+                    return (Verdict::Ok, true);
+                }
+                let msg = orc.unwrap_or_else(|| vcore::crash::take_last_panic().unwrap_or_default());
+                return (Verdict::Violation(i, format!("{op}: panicked ({msg}) but the model did not")), changed);
+            }
+            (Err(_), Ok(_)) => return (Verdict::Violation(i, format!("{op}: std panics on these arguments but the subject returned normally")), changed),
+            (Ok(None), _) => unreachable!(),
+        }
+    }
+    (Verdict::Ok, changed)
+}
+
+/// Creates the subject of `kind` with `init` elements on a fresh arena and drives the history.
+pub fn run_case(ci: usize, kind: Kind, zst: bool, init: usize, ops: &[VOp], mode: Mode) -> CaseResult {
+    slab::select(0);
+    slab::reset(0, SlabCfg::default());
+    elem::reset();
+    let _ = vcore::crash::take_last_panic();
+    let mut callbacks = 0;
+    let mut fired = false;
+    let (verdict, changed) = with_cfg!(ci, |S| {
+        if zst { run_typed::<S, Z>(kind, init, ops, mode, &mut callbacks, &mut fired) } else { run_typed::<S, El>(kind, init, ops, mode, &mut callbacks, &mut fired) }
+    });
+    // ---- end of life accounting (everything is dropped by now)
+    let mut verdict = verdict;
+    if let Verdict::Ok | Verdict::Stop(_) = verdict {
+        let flags = elem::flags();
+        let c = elem::census();
+        let leak_ok = ops.iter().any(|o| matches!(o, VOp::Drain(_, _, Take::Forget) | VOp::Splice(_, _, _, Take::Forget) | VOp::ExtractIf(_, Take::Forget))) || matches!(mode, Mode::Inject { drops: true, .. });
+        if let Some(f) = flags.first() {
+            verdict = Verdict::Violation(ops.len(), f.clone());
+        } else if c.dropped_more > 0 {
+            verdict = Verdict::Violation(ops.len(), format!("{} value(s) were dropped more than once", c.dropped_more));
+        } else if c.z_live < 0 {
+            verdict = Verdict::Violation(ops.len(), "more zero-sized values dropped than created".into());
+        } else if !leak_ok && (c.alive > 0 || c.z_live > 0) {
+            verdict = Verdict::Violation(ops.len(), format!("{} value(s) were never dropped (leaked) after the collection and everything moved out of it were gone", c.alive as i64 + c.z_live));
+        } else {
+            let (errs, guards) = slab::with_slab(0, |s| (s.errors.first().cloned(), s.check_guards()));
+            if let Some(e) = errs {
+                verdict = Verdict::Violation(ops.len(), format!("base allocator protocol: {e}"));
+            } else if let Err(e) = guards {
+                verdict = Verdict::Violation(ops.len(), format!("memory outside granted blocks was written: {e}"));
+            }
+        }
+    }
+    CaseResult { verdict, callbacks, changed, fired, final_vals: Vec::new() }
+}
+
+fn run_typed<S, T>(kind: Kind, init: usize, ops: &[VOp], mode: Mode, callbacks: &mut u64, fired: &mut bool) -> (Verdict, bool)
+where
+    S: bump_scope::settings::BumpAllocatorSettings + 'static,
+    T: ElemT + Clone + PartialEq,
+    SlabZ: bump_scope::BaseAllocator<S::GuaranteedAllocated>,
+{
+    let mut bump: Bump<SlabZ, S> = Bump::new_in(SlabZ);
+    // misalign the position
+    let _ = bump.alloc(0u8);
+    let model: Vec<u32> = (1..=init as u32).map(|v| if T::IS_ZST { 0 } else { v }).collect();
+    let mk = || (1..=init as u32).map(T::new);
+    let fixed_cap = init + FIXED_EXTRA;
+    // zero-sized elements: every vector has unlimited capacity
+    let model_cap = if T::IS_ZST { usize::MAX / 2 } else { fixed_cap };
+    let r = {
+        let arm = |mode: Mode| {
+            if let Mode::Inject { k: Some(k), drops } = mode {
+                elem::arm(k as i64, drops);
+            } else if let Mode::Inject { k: None, drops } = mode {
+                elem::arm(-1, drops);
+            }
+        };
+        match kind {
+            Kind::BumpVec => {
+                let v: BumpVec<T, &Bump<SlabZ, S>> = BumpVec::from_iter_in(mk(), &bump);
+                arm(mode);
+                catch_unwind(AssertUnwindSafe(|| drive::<T, _>(v, model, ops, mode, model_cap, 0)))
+            }
+            Kind::MutVec => {
+                let v: MutBumpVec<T, &mut Bump<SlabZ, S>> = MutBumpVec::from_iter_in(mk(), &mut bump);
+                arm(mode);
+                catch_unwind(AssertUnwindSafe(|| drive::<T, _>(v, model, ops, mode, model_cap, 0)))
+            }
+            Kind::MutVecRev => {
+                // from_iter pushes one by one, i.e. the logical order is reversed: build it so that it equals the model
+                let mut v: MutBumpVecRev<T, &mut Bump<SlabZ, S>> = MutBumpVecRev::new_in(&mut bump);
+                for x in (1..=init as u32).rev() {
+                    v.push(T::new(x));
+                }
+                arm(mode);
+                catch_unwind(AssertUnwindSafe(|| drive::<T, _>(v, model, ops, mode, model_cap, 0)))
+            }
+            Kind::Fixed => {
+                let mut v: FixedBumpVec<'_, T> = FixedBumpVec::with_capacity_in(fixed_cap, &bump);
+                for e in mk() {
+                    v.push(e);
+                }
+                arm(mode);
+                catch_unwind(AssertUnwindSafe(|| drive::<T, _>(v, model, ops, mode, model_cap, if T::IS_ZST { 0 } else { fixed_cap })))
+            }
+            Kind::Boxed => {
+                let v = bump.alloc_iter(mk());
+                arm(mode);
+                catch_unwind(AssertUnwindSafe(|| drive::<T, _>(v, model, ops, mode, model_cap, 0)))
+            }
+        }
+    };
+    *callbacks = elem::callbacks();
+    *fired = elem::fired();
+    elem::arm(-1, false);
+    match r {
+        Ok(x) => x,
+        Err(p) => {
+            // a panic escaping `drive` can only come from dropping the subject during unwinding of an injected panic
+            let (inj, _) = payload_kind(&p);
+            if inj { (Verdict::Ok, true) } else { (Verdict::Violation(ops.len(), format!("unexpected panic: {}", vcore::crash::take_last_panic().unwrap_or_default())), false) }
+        }
+    }
+}
+
+/// the operations applicable to a vector of `n` elements (every index / range incl. one out-of-range value)
+pub fn ops_for(n: usize, thorough: bool, inject: bool) -> Vec<VOp> {
+    let mut v = vec![VOp::Push(41), VOp::PushWith(42), VOp::Pop, VOp::PopIf(true), VOp::PopIf(false), VOp::Clear, VOp::Dedup, VOp::DedupByKey, VOp::ShrinkToFit, VOp::RoundTrip, VOp::Reserve(2), VOp::Reserve(9), VOp::ReserveExact(3)];
+    for i in 0..=n + 1 {
+        v.push(VOp::Insert(i, 43));
+        v.push(VOp::Truncate(i));
+        v.push(VOp::ShrinkTo(i));
+    }
+    for i in 0..=n {
+        v.push(VOp::Remove(i));
+        v.push(VOp::SwapRemove(i));
+    }
+    for k in [0, n.saturating_sub(1), n + 2] {
+        v.push(VOp::Resize(k, 44));
+        v.push(VOp::ResizeWith(k));
+    }
+    v.push(VOp::ExtendClone(0));
+    v.push(VOp::ExtendClone(2));
+    v.push(VOp::ExtendIter(2, false));
+    v.push(VOp::ExtendIter(2, true));
+    for src in [Src::Array, Src::StdVec, Src::BoxedSlice, Src::StdDrain, Src::OtherBumpVec] {
+        v.push(VOp::Append(src, 2));
+    }
+    v.push(VOp::Append(Src::Array, 0));
+    let takes: &[Take] = if inject { &[Take::All, Take::FrontOne, Take::BackOne, Take::None, Take::KeepRest, Take::Forget] } else { &[Take::All, Take::FrontOne, Take::BackOne, Take::None, Take::KeepRest] };
+    for s in 0..=n + 1 {
+        for e in 0..=n + 1 {
+            if s > e && !(s == e + 1) {
+                continue;
+            }
+            // s == e + 1 is the one inverted (invalid) range per start
+            v.push(VOp::ExtendWithin(s, e));
+            v.push(VOp::SplitOff(s, e));
+            for &t in takes {
+                if thorough || matches!(t, Take::All | Take::FrontOne | Take::KeepRest | Take::Forget) || (s + 1 == e) {
+                    v.push(VOp::Drain(s, e, t));
+                }
+            }
+            for c in [0usize, 2] {
+                v.push(VOp::Splice(s, e, c, Take::All));
+                if thorough || inject {
+                    v.push(VOp::Splice(s, e, c, Take::None));
+                }
+            }
+        }
+    }
+    for mask in [0u8, 0b101, 0xff] {
+        v.push(VOp::Retain(mask));
+        for t in [Take::All, Take::FrontOne, Take::None] {
+            v.push(VOp::ExtractIf(mask, t));
+        }
+        if inject {
+            v.push(VOp::ExtractIf(mask, Take::Forget));
+        }
+    }
+    // finishers
+    v.push(VOp::IntoIter(0, 0));
+    v.push(VOp::IntoIter(1, 1));
+    v.push(VOp::IntoIter(n, 0));
+    v.push(VOp::MapInPlace);
+    v.push(VOp::Map);
+    v
+}
+
+fn model_len_after(kind: Kind, init: usize, prefix: &[VOp]) -> Option<usize> {
+    let mut m: Vec<u32> = (1..=init as u32).collect();
+    for op in prefix {
+        let r = catch_unwind(AssertUnwindSafe(|| model_apply(&mut m, kind, op, init + FIXED_EXTRA)));
+        match r {
+            Ok(Some(_)) => {}
+            _ => return None,
+        }
+    }
+    Some(m.len())
+}
+
+pub fn case_text(prop: &str, ci: usize, kind: Kind, zst: bool, init: usize, ops: &[VOp], k: Option<u64>, drops: bool) -> String {
+    format!("prop={prop};cfg={ci};kind={};zst={};init={init};k={};drops={};ops={}", kind.name(), zst as u8, k.map_or(-1i64, |k| k as i64), drops as u8, ops.iter().map(|o| format!("{o:?}")).collect::<Vec<_>>().join("|"))
+}
+
+struct Totals {
+    histories: AtomicU64,
+    runs: AtomicU64,
+    nontrivial: AtomicU64,
+    unwound: AtomicU64,
+    stop: AtomicBool,
+}
+
+fn explore_vecs(prop: &str, thorough: bool, deadline: Instant) -> (J, Vec<J>) {
+    let t0 = Instant::now();
+    let inject = prop == "C06";
+    let depth = if thorough { if inject { 2 } else { 3 } } else if inject { 2 } else { 3 };
+    let inits: Vec<usize> = if thorough { vec![0, 1, 2, 3, 4] } else if inject { vec![0, 1, 2, 3, 4] } else { vec![0, 2] };
+    let totals = Totals { histories: AtomicU64::new(0), runs: AtomicU64::new(0), nontrivial: AtomicU64::new(0), unwound: AtomicU64::new(0), stop: AtomicBool::new(false) };
+    let viols: Mutex<Vec<J>> = Mutex::new(Vec::new());
+    let samples: Mutex<Vec<String>> = Mutex::new(Vec::new());
+    let capped = AtomicBool::new(false);
+    // work items: (config, kind, zst, init, first op index)
+    let mut items = Vec::new();
+    for ci in 0..CFGS.len() {
+        for kind in KINDS {
+            for zst in [false, true] {
+                for &init in &inits {
+                    let n_first = ops_for(init, thorough, inject).len();
+                    for f in 0..n_first {
+                        items.push((ci, kind, zst, init, f));
+                    }
+                }
+            }
+        }
+    }
+    let next = AtomicUsize::new(0);
+    let threads = std::thread::available_parallelism().map_or(8, |n| n.get());
+    std::thread::scope(|sc| {
+        for _ in 0..threads {
+            sc.spawn(|| {
+                vcore::crash::install_thread_altstack();
+                loop {
+                    let it = next.fetch_add(1, Ordering::Relaxed);
+                    if it >= items.len() || totals.stop.load(Ordering::Relaxed) {
+                        break;
+                    }
+                    let (ci, kind, zst, init, f) = items[it];
+                    let first = ops_for(init, thorough, inject)[f];
+                    let mut stack: Vec<Vec<VOp>> = vec![vec![first]];
+                    while let Some(hist) = stack.pop() {
+                        if totals.stop.load(Ordering::Relaxed) {
+                            break;
+                        }
+                        if Instant::now() > deadline {
+                            capped.store(true, Ordering::Relaxed);
+                            totals.stop.store(true, Ordering::Relaxed);
+                            break;
+                        }
+                        let mode = if inject { Mode::Inject { k: None, drops: false } } else { Mode::Diff };
+                        let r = run_case(ci, kind, zst, init, &hist, mode);
+                        totals.runs.fetch_add(1, Ordering::Relaxed);
+                        let mut report = |v: &Verdict, k: Option<u64>, drops: bool| {
+                            if let Verdict::Violation(step, msg) = v {
+                                let case = case_text(prop, ci, kind, zst, init, &hist, k, drops);
+                                let mut vs = viols.lock().unwrap();
+                                vs.push(
+                                    J::obj()
+                                        .set("prop", prop)
+                                        .set("cfg", CFGS[ci].0)
+                                        .set("params", format!("{} elem={} init_len={init} inject={:?} drop_panics={drops}", kind.name(), if zst { "ZST" } else { "sized" }, k))
+                                        .set("history", hist.iter().map(|o| format!("{o:?}")).collect::<Vec<_>>().join(" "))
+                                        .set("step", *step)
+                                        .set("msg", msg.as_str())
+                                        .set("replay_args", vec!["--case".to_string(), case]),
+                                );
+                                if vs.len() >= 8 {
+                                    totals.stop.store(true, Ordering::Relaxed);
+                                }
+                            }
+                        };
+                        match &r.verdict {
+                            Verdict::Stop(i) if *i < hist.len() => continue,
+                            Verdict::Violation(..) => {
+                                report(&r.verdict, None, false);
+                                continue;
+                            }
+                            _ => {}
+                        }
+                        totals.histories.fetch_add(1, Ordering::Relaxed);
+                        if r.changed {
+                            totals.nontrivial.fetch_add(1, Ordering::Relaxed);
+                        }
+                        let h = totals.histories.load(Ordering::Relaxed);
+                        if h % 200_003 == 7 {
+                            let mut s = samples.lock().unwrap();
+                            if s.len() < 16 {
+                                s.push(case_text(prop, ci, kind, zst, init, &hist, None, false));
+                            }
+                        }
+                        if inject {
+                            // a panic at every callback invocation of this history (and, separately, at every drop)
+                            for k in 0..r.callbacks {
+                                let ri = run_case(ci, kind, zst, init, &hist, Mode::Inject { k: Some(k), drops: false });
+                                totals.runs.fetch_add(1, Ordering::Relaxed);
+                                if ri.fired {
+                                    totals.unwound.fetch_add(1, Ordering::Relaxed);
+                                }
+                                report(&ri.verdict, Some(k), false);
+                            }
+                            let rd = run_case(ci, kind, zst, init, &hist, Mode::Inject { k: None, drops: true });
+                            for k in 0..rd.callbacks.min(24) {
+                                let ri = run_case(ci, kind, zst, init, &hist, Mode::Inject { k: Some(k), drops: true });
+                                totals.runs.fetch_add(1, Ordering::Relaxed);
+                                if ri.fired {
+                                    totals.unwound.fetch_add(1, Ordering::Relaxed);
+                                }
+                                report(&ri.verdict, Some(k), true);
+                            }
+                        }
+                        if hist.len() < depth && !hist.last().unwrap().is_finisher() {
+                            if let Some(n) = model_len_after(kind, init, &hist) {
+                                for op in ops_for(n, thorough, inject).into_iter().rev() {
+                                    let mut h2 = hist.clone();
+                                    h2.push(op);
+                                    stack.push(h2);
+                                }
+                            }
+                        }
+                    }
+                }
+            });
+        }
+    });
+    let h = totals.histories.load(Ordering::Relaxed);
+    let runs = totals.runs.load(Ordering::Relaxed);
+    let nt = if inject { totals.unwound.load(Ordering::Relaxed) } else { totals.nontrivial.load(Ordering::Relaxed) };
+    let mut samples = samples.into_inner().unwrap();
+    if samples.is_empty() {
+        samples.push(case_text(prop, 0, Kind::BumpVec, false, 3, &[VOp::Drain(1, 2, Take::FrontOne), VOp::Push(41)], None, false));
+    }
+    let viols = viols.into_inner().unwrap();
+    let rule = if inject {
+        "every history (depth bound) over the state-dependent alphabet of vector operations (all indices / ranges incl. invalid ones, iterator consumption patterns incl. forget and keep_rest) x {BumpVec, MutBumpVec, MutBumpVecRev, FixedBumpVec, BumpBox<[T]>} x {sized, zero-sized} elements x initial lengths x 4 arena configurations; for each history one run per user-callback invocation with a panic injected exactly there (Clone, closures, predicates, Iterator::next), and again with Drop::drop counted as a callback; drop counts of every value ever created are audited after everything is gone; non-trivial = injected runs in which the panic actually fired inside an operation"
+    } else {
+        "every history (depth bound) over the state-dependent alphabet of vector operations (all indices / ranges incl. one out-of-range value each) x {BumpVec, MutBumpVec, MutBumpVecRev (mirrored model), FixedBumpVec, BumpBox<[T]>} x {sized, zero-sized} elements x initial lengths x 4 arena configurations (both directions, MIN_ALIGN 1/8/16, 16-byte first chunk so growth crosses chunks), compared with std Vec after every operation (return value, contents, len, panic/no-panic, capacity promises, buffer address); histories are not extended through operations on which model and subject both panic (subject checked unchanged); non-trivial = histories that changed the contents"
+    };
+    let cov = J::obj()
+        .set("states", h)
+        .set("transitions", runs)
+        .set("traces_validated_against_impl", runs)
+        .set("evaluations", runs)
+        .set("distinct_nontrivial", nt)
+        .set("rule", rule)
+        .set("samples", samples)
+        .set("exhaustive", !capped.load(Ordering::Relaxed))
+        .set("depth_bound", depth)
+        .set("initial_lengths", inits.iter().map(|&x| x as u64).collect::<Vec<u64>>())
+        .set("histories", h)
+        .set("runs_incl_injected", runs);
+    let space = J::obj()
+        .set("property_id", prop)
+        .set("tier", if thorough { "thorough" } else { "quick" })
+        .set("seed", 0)
+        .set("level", if inject { "fault_enumeration" } else { "model_checking" })
+        .set("space", "vectors")
+        .set("coverage", cov)
+        .set("wall_s", t0.elapsed().as_secs_f64())
+        .set("violations", viols.len())
+        .set("floor", 1000)
+        .set("floor_ok", nt >= 1000 || !viols.is_empty() || capped.load(Ordering::Relaxed));
+    (space, viols)
+}
+
+fn parse_case(s: &str) -> Option<(String, usize, Kind, bool, usize, Option<u64>, bool, Vec<VOp>)> {
+    let mut m = std::collections::HashMap::new();
+    for kv in s.split(';') {
+        let (k, v) = kv.split_once('=')?;
+        m.insert(k, v);
+    }
+    let k: i64 = m.get("k")?.parse().ok()?;
+    let ops = parse_ops(m.get("ops")?)?;
+    Some((m.get("prop")?.to_string(), m.get("cfg")?.parse().ok()?, Kind::parse(m.get("kind")?)?, *m.get("zst")? == "1", m.get("init")?.parse().ok()?, if k < 0 { None } else { Some(k as u64) }, *m.get("drops")? == "1", ops))
+}
+
+fn parse_ops(s: &str) -> Option<Vec<VOp>> {
+    // Debug format of VOp, e.g. Drain(1, 2, FrontOne)
+    let mut out = Vec::new();
+    if s.is_empty() {
+        return Some(out);
+    }
+    for t in s.split('|') {
+        let (name, args) = match t.find('(') {
+            Some(i) => (&t[..i], t[i + 1..t.len() - 1].split(", ").collect::<Vec<_>>()),
+            None => (t, Vec::new()),
+        };
+        let u = |i: usize| -> Option<usize> { args.get(i)?.parse().ok() };
+        let take = |i: usize| -> Option<Take> {
+            Some(match *args.get(i)? {
+                "All" => Take::All,
+                "FrontOne" => Take::FrontOne,
+                "BackOne" => Take::BackOne,
+                "None" => Take::None,
+                "Forget" => Take::Forget,
+                "KeepRest" => Take::KeepRest,
+                _ => return None,
+            })
+        };
+        out.push(match name {
+            "Push" => VOp::Push(u(0)? as u32),
+            "PushWith" => VOp::PushWith(u(0)? as u32),
+            "Insert" => VOp::Insert(u(0)?, u(1)? as u32),
+            "Remove" => VOp::Remove(u(0)?),
+            "SwapRemove" => VOp::SwapRemove(u(0)?),
+            "Pop" => VOp::Pop,
+            "PopIf" => VOp::PopIf(*args.first()? == "true"),
+            "Truncate" => VOp::Truncate(u(0)?),
+            "Clear" => VOp::Clear,
+            "Resize" => VOp::Resize(u(0)?, u(1)? as u32),
+            "ResizeWith" => VOp::ResizeWith(u(0)?),
+            "ExtendClone" => VOp::ExtendClone(u(0)?),
+            "ExtendWithin" => VOp::ExtendWithin(u(0)?, u(1)?),
+            "ExtendIter" => VOp::ExtendIter(u(0)?, *args.get(1)? == "true"),
+            "Append" => VOp::Append(
+                match *args.first()? {
+                    "Array" => Src::Array,
+                    "StdVec" => Src::StdVec,
+                    "BoxedSlice" => Src::BoxedSlice,
+                    "StdDrain" => Src::StdDrain,
+                    "BumpBoxSlice" => Src::BumpBoxSlice,
+                    _ => Src::OtherBumpVec,
+                },
+                u(1)?,
+            ),
+            "Drain" => VOp::Drain(u(0)?, u(1)?, take(2)?),
+            "Splice" => VOp::Splice(u(0)?, u(1)?, u(2)?, take(3)?),
+            "ExtractIf" => VOp::ExtractIf(u(0)? as u8, take(1)?),
+            "Retain" => VOp::Retain(u(0)? as u8),
+            "Dedup" => VOp::Dedup,
+            "DedupByKey" => VOp::DedupByKey,
+            "SplitOff" => VOp::SplitOff(u(0)?, u(1)?),
+            "Reserve" => VOp::Reserve(u(0)?),
+            "ReserveExact" => VOp::ReserveExact(u(0)?),
+            "ShrinkToFit" => VOp::ShrinkToFit,
+            "ShrinkTo" => VOp::ShrinkTo(u(0)?),
+            "RoundTrip" => VOp::RoundTrip,
+            "IntoIter" => VOp::IntoIter(u(0)?, u(1)?),
+            "MapInPlace" => VOp::MapInPlace,
+            "Map" => VOp::Map,
+            _ => return None,
+        });
+    }
+    Some(out)
+}
+
+fn main() {
+    vcore::crash::install();
+    let args: Vec<String> = std::env::args().collect();
+    let cmd = args.get(1).map(String::as_str).unwrap_or("");
+    let prop = arg(&args, "--prop").unwrap_or_default();
+    match cmd {
+        "check" => {
+            let thorough = arg(&args, "--tier").as_deref() == Some("thorough");
+            let secs: u64 = arg(&args, "--secs").and_then(|s| s.parse().ok()).unwrap_or(if thorough { 1500 } else { 50 });
+            let deadline = Instant::now() + Duration::from_secs(secs);
+            let (space, viols) = match prop.as_str() {
+                "C06" | "C08" => explore_vecs(&prop, thorough, deadline),
+                "C16" => split::explore(thorough, deadline),
+                "C07" => split::explore_alloc_failures(thorough, deadline),
+                _ => panic!("unknown property"),
+            };
+            for v in &viols {
+                println!("VIOL {}", v.to_string());
+            }
+            println!("SPACE {}", space.to_string());
+            println!("DONE violations={}", viols.len());
+        }
+        "replay" => {
+            let case = arg(&args, "--case").expect("--case");
+            if case.starts_with("split:") || case.starts_with("fail:") {
+                match split::replay(&case) {
+                    Some(m) => println!("REPLAY VIOLATION step=0 msg={m}"),
+                    None => println!("REPLAY OK"),
+                }
+                return;
+            }
+            let (_p, ci, kind, zst, init, k, drops, ops) = parse_case(&case).expect("case");
+            let mode = if _p == "C06" { Mode::Inject { k, drops } } else { Mode::Diff };
+            let r = run_case(ci, kind, zst, init, &ops, mode);
+            match r.verdict {
+                Verdict::Violation(step, msg) => println!("REPLAY VIOLATION step={step} msg={msg}"),
+                _ => println!("REPLAY OK"),
+            }
+        }
+        _ => {
+            eprintln!("usage: coll-mc check|replay ...");
+            std::process::exit(2);
+        }
+    }
+}
